@@ -30,6 +30,7 @@
  * Output (stdout), one record per line:
  *   HIT    sid= var= ep= call= fn= kind=reg|stack|mgr where= len= secret=<item>:<class>+<off> leftby= bytes=
  *   DIRTY  sid= var= ep= ooo= field= lanes=<hex mask> first_call= first_fn= idle_seen=<0|1> count=
+ *          lane=<first lane free and dirty at the end> public=<units found in public data>/<units> now=<hex>
  *   USED   sid= var= ooo= field=          (a busy lane held non-zero data in this field)
  *   SCHED  sid= var= ep= n= calls= idle= hits= dirty= windows= status=<s0,s1,..>
  *   TOTAL  ...
@@ -353,7 +354,7 @@ static IMB_MGR *tmgr, *rmgr; /* hooked manager under test, reference manager */
 static size_t mgr_size;
 static uint8_t *mgr_shadow; /* copy of the manager at the last memory scan */
 static const char *var_name = "?";
-static int quiet, verbose_dirty;
+static int quiet;
 
 #define MAX_ITEMS 128
 typedef struct {
@@ -805,12 +806,17 @@ where_mgr(const uint8_t *p, char *out, const size_t outsz)
         snprintf(out, outsz, "mgr-memory+0x%zx", off);
 }
 
+static const char *only_class; /* final pass: report only secrets of this class (the others were reported) */
+
 static void
 report_hit(const char *kind, const char *where, const uint8_t *at, const uint32_t sec,
            const uint32_t off, const uint32_t len, const int by_call, const uint64_t by_slot,
            const uint64_t slot)
 {
         imbh_str s = { 0 };
+
+        if (only_class != NULL && strcmp(secs[sec].cls, only_class) != 0)
+                return;
 
         n_hits++;
         imbh_str_add(&s, "HIT sid=%s var=%s ep=%d call=%d fn=%s kind=%s where=%s len=%u secret=%d:%s+%u leftby=%d:%s bytes=",
@@ -1182,6 +1188,17 @@ make_mgr(const char *variant)
 /* ------------------------------------------------------------------------------------------ */
 /* schedule runner                                                                             */
 /* ------------------------------------------------------------------------------------------ */
+/* how much of a residue is public: every non-zero 4-byte word (transposed rows) or 8-byte window
+ * (contiguous fields) is looked up in the public buffers of the schedule */
+static int
+word_is_public(const uint8_t *w, const size_t n)
+{
+        for (int i = 0; i < n_pubs; i++)
+                if (memmem(pubs[i].p, pubs[i].n, w, n) != NULL)
+                        return 1;
+        return 0;
+}
+
 static void
 flush_dirty(void)
 {
@@ -1190,26 +1207,53 @@ flush_dirty(void)
                         dstat *s = &dstats[i][f];
 
                         if (s->count) {
-                                n_dirty++;
-                                printf("DIRTY sid=%s var=%s ep=%d ooo=%s field=%s lanes=%x first_call=%d first_fn=%s idle_seen=%d count=%lu\n",
-                                       cur_sid, var_name, cur_ep, ooo_tab[i].name,
-                                       ooo_tab[i].d->f[f].name, s->lanes, s->first_call,
-                                       slot_name(s->first_slot), s->idle_seen ? 1 : 0, s->count);
-                                if (verbose_dirty) {
-                                        const fdef *fd = &ooo_tab[i].d->f[f];
-                                        const uint8_t *o = *(uint8_t *const *) ((const uint8_t *) tmgr + ooo_tab[i].ptr_off);
-                                        const int lane = __builtin_ctz(s->lanes);
+                                const odef *d = ooo_tab[i].d;
+                                const fdef *fd = &d->f[f];
+                                const uint8_t *o = *(uint8_t *const *) ((const uint8_t *) tmgr + ooo_tab[i].ptr_off);
+                                imbh_str now = { 0 };
+                                int lane = -1, units = 0, pub = 0;
 
-                                        printf("  now lane %d:", lane);
-                                        for (size_t r = 0; r < (fd->kind == F_ROWS ? fd->nrows : 1); r++) {
-                                                const uint8_t *q = o + fd->base + r * (fd->row_stride ? fd->row_stride : zuc_row_stride) + (size_t) lane * fd->stride;
+                                /* the first lane that is free and dirty right now */
+                                for (int l = 0; l < d->nlanes && lane < 0; l++)
+                                        if (*(void *const *) (o + d->jil_base + (size_t) l * d->jil_stride) == NULL &&
+                                            field_nonzero(o, d, fd, l))
+                                                lane = l;
+                                if (lane >= 0) {
+                                        const int ni = fd->kind == F_ROWS && fd->ni_stride && d->tnl_off &&
+                                                       *(const uint32_t *) (o + d->tnl_off) == 2;
+                                        const size_t rs = fd->row_stride ? fd->row_stride : zuc_row_stride;
+                                        const size_t nr = (fd->kind == F_ROWS && !ni) ? fd->nrows : 1;
+                                        const size_t ln = fd->kind == F_ROWS ? (ni ? fd->nrows * fd->len : fd->len) : fd->len;
 
-                                                printf(" ");
-                                                for (size_t b = 0; b < fd->len; b++)
-                                                        printf("%02x", q[b]);
+                                        for (size_t r = 0; r < nr; r++) {
+                                                const uint8_t *q = fd->kind == F_LANE ? o + fd->base + (size_t) lane * fd->stride
+                                                                   : ni ? o + fd->base + (size_t) lane * fd->ni_stride
+                                                                        : o + fd->base + r * rs + (size_t) lane * fd->stride;
+
+                                                if (now.len < 400)
+                                                        imbh_str_hex(&now, q, ln);
+                                                if (nr > 1) { /* transposed words */
+                                                        static const uint8_t z[8];
+
+                                                        if (memcmp(q, z, ln) != 0) {
+                                                                units++;
+                                                                pub += word_is_public(q, ln);
+                                                        }
+                                                } else {
+                                                        for (size_t b = 0; b + 8 <= ln; b++)
+                                                                if (window_ok(ld64(q + b))) {
+                                                                        units++;
+                                                                        pub += word_is_public(q + b, 8);
+                                                                }
+                                                }
                                         }
-                                        printf("\n");
                                 }
+                                n_dirty++;
+                                printf("DIRTY sid=%s var=%s ep=%d ooo=%s field=%s lanes=%x first_call=%d first_fn=%s idle_seen=%d count=%lu lane=%d public=%d/%d now=%s\n",
+                                       cur_sid, var_name, cur_ep, ooo_tab[i].name, fd->name, s->lanes,
+                                       s->first_call, slot_name(s->first_slot), s->idle_seen ? 1 : 0,
+                                       s->count, lane, pub, units, now.s ? now.s : "-");
+                                free(now.s);
                         }
                         if (s->used && !quiet)
                                 printf("USED sid=%s var=%s ooo=%s field=%s\n", cur_sid, var_name,
@@ -1289,12 +1333,13 @@ run_schedule(imbh_item *items, imbh_bytes *pts, const int n)
         }
         if (added && storage_check(999, 0)) {
                 sched_active = 1; /* counters only */
-                call_no++;
+                only_class = "keystream";
                 regs_scan(999);
                 n_pends = 0;
                 stack_scan(999);
                 stack_report(999);
                 mgr_scan(999, 1);
+                only_class = NULL;
                 sched_active = 0;
         }
         flush_dirty();
@@ -1377,8 +1422,6 @@ main(int argc, char **argv)
                         slots = argv[++i];
                 else if (strcmp(argv[i], "--quiet") == 0)
                         quiet = 1;
-                else if (strcmp(argv[i], "--dump-dirty") == 0)
-                        verbose_dirty = 1;
                 else if (strcmp(argv[i], "--selfcheck") == 0)
                         do_selfcheck = 1;
                 else if (strcmp(argv[i], "--list-variants") == 0) {
